@@ -646,3 +646,77 @@ pub fn random_cnf(rng: &mut Rng, n: u32, nclauses: usize, maxw: usize) -> Cnf {
     }
     cnf
 }
+
+// ---------------------------------------------------------------------------------------------
+// c2d with n-ary or nodes: multiway decisions on blocks of 1..3 variables (the format allows any
+// number of children although c2d itself emits binary decisions)
+
+pub fn emit_c2d_multiway(models: &[u32], n: u32, rng: &mut Rng) -> Vec<String> {
+    struct B {
+        lines: Vec<String>,
+        lit: HashMap<i32, usize>,
+        edges: usize,
+    }
+    impl B {
+        fn lit(&mut self, l: i32) -> usize {
+            if let Some(&i) = self.lit.get(&l) {
+                return i;
+            }
+            self.lines.push(format!("L {}", l));
+            self.lit.insert(l, self.lines.len() - 1);
+            self.lines.len() - 1
+        }
+        fn node(&mut self, kind: &str, kids: &[usize]) -> usize {
+            if kids.len() == 1 {
+                return kids[0];
+            }
+            let mut s = if kind == "A" { format!("A {}", kids.len()) } else { format!("O 0 {}", kids.len()) };
+            for k in kids {
+                s.push_str(&format!(" {}", k));
+            }
+            self.edges += kids.len();
+            self.lines.push(s);
+            self.lines.len() - 1
+        }
+    }
+    fn go(b: &mut B, models: &[u32], vars: &[u32], rng: &mut Rng) -> usize {
+        // models: assignments (bit v-1) restricted to `vars`; non-empty
+        let k = (1 + rng.below(3) as usize).min(vars.len());
+        let (block, rest) = vars.split_at(k);
+        let mut branches = Vec::new();
+        for a in 0..(1u32 << k) {
+            let sel: Vec<u32> = models
+                .iter()
+                .copied()
+                .filter(|m| block.iter().enumerate().all(|(i, v)| ((m >> (v - 1)) & 1) == ((a >> i) & 1)))
+                .collect();
+            if sel.is_empty() {
+                continue;
+            }
+            let mut kids: Vec<usize> = block
+                .iter()
+                .enumerate()
+                .map(|(i, v)| b.lit(if (a >> i) & 1 == 1 { *v as i32 } else { -(*v as i32) }))
+                .collect();
+            if !rest.is_empty() {
+                kids.push(go(b, &sel, rest, rng));
+            }
+            branches.push(b.node("A", &kids));
+        }
+        b.node("O", &branches)
+    }
+    let mut b = B { lines: Vec::new(), lit: HashMap::new(), edges: 0 };
+    let mut vars: Vec<u32> = (1..=n).collect();
+    rng.shuffle(&mut vars);
+    go(&mut b, models, &vars, rng);
+    let mut out = vec![format!("nnf {} {} {}", b.lines.len(), b.edges, n)];
+    out.extend(b.lines);
+    out
+}
+
+/// rename the variables of a CNF (injective map old -> new)
+pub fn rename_cnf(cnf: &Cnf, map: &dyn Fn(u32) -> u32) -> Cnf {
+    cnf.iter()
+        .map(|c| c.iter().map(|&l| if l > 0 { map(l as u32) as i32 } else { -(map((-l) as u32) as i32) }).collect())
+        .collect()
+}
